@@ -523,10 +523,16 @@ func bufferedSeq(s *simrt.Sim) {
 			q = append(q, &v)
 			what = fmt.Sprintf("AppendBack(%d)", v)
 		case k < 7:
-			if len(q) == 0 {
-				continue
-			}
 			got := b.RemoveFront()
+			if len(q) == 0 {
+				// nothing to remove: a queue stays empty and has no front to report
+				if got != nil {
+					s.Fail("buffered-removefront", fmt.Sprintf("initial=%d bsize=%d op %d: RemoveFront on an empty buffer returned %v", initial, bsize, i, *got))
+					return
+				}
+				what = "RemoveFront on the empty buffer"
+				break
+			}
 			q = q[1:]
 			var want *int
 			if len(q) > 0 {
